@@ -605,7 +605,8 @@ impl Scenario for Std {
                     Some(Op::Reopen) => oracles::check_c20_exact(d, "after reopen", out),
                     Some(o) if info.version_changed
                         && info.watermark == Some(SeqNo::MAX)
-                        && no_snaps =>
+                        && no_snaps
+                        && !d.partial_files_possible =>
                     {
                         oracles::check_c20_exact(
                             d,
